@@ -183,6 +183,66 @@ func init() {
 		}
 		return st.res()
 	})
+	// MappingBodies: EVERY byte string over the given alphabet up to maxlen as a mapping body (size field prepended),
+	// through ReadMapping; per string: accepted without any error?, number of pairs, re-serialisation equals the input?
+	// Results are bit strings in enumeration order (length-major, then lexicographic in alphabet order).
+	register("MappingBodies", func(s *Session, a Args) Res {
+		alpha := a.Bytes("alphabet")
+		length := a.Int("len")
+		first := a.Int("first") // index into the alphabet of the first character, -1 = all
+		var accepted, same []int
+		npanic := 0
+		firstPanic := ""
+		total := 0
+		var rec func(cur []byte, n int)
+		eval := func(body []byte) {
+			in := append([]byte{byte(len(body) >> 8), byte(len(body))}, body...)
+			acc, sm := 0, 0
+			msg := guarded(func() {
+				m, rem, errs := data.ReadMapping(append([]byte{}, in...))
+				if len(errs) == 0 && len(rem) == 0 {
+					acc = 1
+					if string(m.Data()) == string(in) {
+						sm = 1
+					}
+				}
+				m.Values()
+				m.ToGoMap()
+				m.HasDuplicateKeys()
+				m.Validate()
+			})
+			if msg != "" {
+				npanic++
+				if firstPanic == "" {
+					firstPanic = fmt.Sprintf("%v: %s", in, msg)
+					if len(firstPanic) > 600 {
+						firstPanic = firstPanic[:600]
+					}
+				}
+			}
+			accepted = append(accepted, acc)
+			same = append(same, sm)
+			total++
+		}
+		rec = func(cur []byte, n int) {
+			if len(cur) == n {
+				eval(cur)
+				return
+			}
+			for _, c := range alpha {
+				rec(append(cur, c), n)
+			}
+		}
+		if first >= 0 && length >= 1 {
+			rec([]byte{alpha[first]}, length)
+		} else {
+			rec([]byte{}, length)
+		}
+		if accepted == nil {
+			accepted, same = []int{}, []int{}
+		}
+		return Res{"n": total, "accepted": accepted, "same": same, "npanic": npanic, "first_panic": firstPanic}
+	})
 	// CodeSweep: a function with a type/size parameter for every code in from..to
 	register("CodeSweep", func(s *Session, a Args) Res {
 		f, ok := codeFuncs[a.Str("fn")]
